@@ -211,6 +211,8 @@ pub fn main(args: &[String]) {
             "cmp" => replay_cmp(&doc, &mut t),
             "search" => replay_search(&doc, &mut t),
             "stab" => replay_stab(&doc, &mut t),
+            "gen" => crate::replay_gen::replay_gen(&doc, &mut t),
+            "csv" => crate::replay_csv::replay_csv(&doc, &mut t),
             _ => crate::replay_str::replay(&ctx, &doc, &mut t),
         }
     }
